@@ -432,23 +432,36 @@ def one(ctx, res, case, tag, terms, metas, in_domain=True):
     return True
 
 
+def enough(res):
+    """stop generating once the verdict is settled: a hang costs 3 s each, 40 failing inputs are plenty to shrink from"""
+    return any(f["signature"] == "hang" for f in res.failures) or len(res.failures) >= 40
+
+
 def run(ctx, res):
     res.rule = ("a case is one JobInstance given to the real precompute; non-trivial = at least 2 tasks and 1 edge; distinct = distinct "
                 "(task count, multiset of (source, sink, output) over task indices)")
     terms, metas = [], []
     for n in range(0, ctx.n(5, 6)):
         for case in exhaustive(n):
+            if enough(res):
+                break
             one(ctx, res, case, f"exhaustive:n={n}", terms, metas)
     rng = ctx.sub_rng("dag")
     for i in range(ctx.n(500, 12000)):
         case, shape = gen_dag(rng)
+        if enough(res):
+            break
         one(ctx, res, case, "shape:" + shape, terms, metas)
     for i in range(ctx.n(12, 300)):
         case, shape = gen_dag(rng, big=True)
+        if enough(res):
+            break
         one(ctx, res, case, "big:" + shape, terms, metas)
     rng = ctx.sub_rng("malformed")
     for i in range(ctx.n(60, 1500)):
         case, kind = gen_malformed(rng)
+        if enough(res):
+            break
         one(ctx, res, case, "malformed:" + kind, terms, metas, in_domain=False)
     results, logs = coq_results("C16", HEADER, terms, "check_precompute", shard=ctx.n(80, 250), tag="pre", timeout=1200)
     res.corr_checked += len(results)
